@@ -23,7 +23,7 @@ type Hlp[T helper.Number] struct {
 }
 
 func one1[T any](c <-chan T) []<-chan T { return []<-chan T{c} }
-func m1[T any](s []T) [][]T              { return [][]T{s} }
+func m1[T any](s []T) [][]T             { return [][]T{s} }
 
 func zipModel[T helper.Number](in [][]T, f func(a, b T) T) [][]T {
 	n := imin(len(in[0]), len(in[1]))
@@ -53,10 +53,14 @@ func hlpTable[T helper.Number]() []*Hlp[T] {
 	}
 	return []*Hlp[T]{
 		{Name: "Map", NIn: 1,
-			Run:   func(in []<-chan T, p, q int) []<-chan T { return one1(helper.Map(in[0], func(x T) T { return x*2 + T(p) })) },
+			Run: func(in []<-chan T, p, q int) []<-chan T {
+				return one1(helper.Map(in[0], func(x T) T { return x*2 + T(p) }))
+			},
 			Model: func(in [][]T, p, q int) [][]T { return mapModel(in[0], func(x T) T { return x*2 + T(p) }) }},
 		{Name: "Apply", NIn: 1,
-			Run:   func(in []<-chan T, p, q int) []<-chan T { return one1(helper.Apply(in[0], func(x T) T { return x - T(p) })) },
+			Run: func(in []<-chan T, p, q int) []<-chan T {
+				return one1(helper.Apply(in[0], func(x T) T { return x - T(p) }))
+			},
 			Model: func(in [][]T, p, q int) [][]T { return mapModel(in[0], func(x T) T { return x - T(p) }) }},
 		{Name: "MapWithPrevious", NIn: 1,
 			Run: func(in []<-chan T, p, q int) []<-chan T {
@@ -304,8 +308,10 @@ func hlpTable[T helper.Number]() []*Hlp[T] {
 			},
 			Valid: func(lens []int, p, q int) bool { return p >= 0 && p <= 3 }},
 		{Name: "Sqrt", NIn: 1, FloatOnly: true,
-			Run:   func(in []<-chan T, p, q int) []<-chan T { return one1(helper.Sqrt(in[0])) },
-			Model: func(in [][]T, p, q int) [][]T { return mapModel(in[0], func(x T) T { return T(math.Sqrt(float64(x))) }) }},
+			Run: func(in []<-chan T, p, q int) []<-chan T { return one1(helper.Sqrt(in[0])) },
+			Model: func(in [][]T, p, q int) [][]T {
+				return mapModel(in[0], func(x T) T { return T(math.Sqrt(float64(x))) })
+			}},
 		{Name: "Echo", NIn: 1,
 			Run: func(in []<-chan T, p, q int) []<-chan T { return one1(helper.Echo(in[0], p, q)) },
 			Model: func(in [][]T, p, q int) [][]T {
@@ -379,4 +385,3 @@ func H_C16F(name string, n1, n2, n3, p, q, capacity int) {
 func H_C16I(name string, n1, n2, n3, p, q, capacity int) {
 	runC16[int](name, n1, n2, n3, p, q, capacity)
 }
-
